@@ -87,6 +87,12 @@ def gen_site(rng: random.Random, scratch: str, name_classes=("plain", "spaces", 
         m.add(b"/" + p, "doc", data, mime=MIME_BY_EXT[ext], tags=["file", "name:" + cls, "ext:" + ext])
         if rng.random() < 0.25:
             t.file(p + b".abstract", rng.choice(["About this file\nsecond line", "A tab\tinside the abstract\nand a second line"]))
+    # packed files: sent as the bytes they are, and announced as such by every protocol alike
+    for nm, data in (("notes.txt.gz", trees.gz(b"packed notes\n" * 40)), ("src.tar.gz", trees.gz(b"\0" * 1024)),
+                     ("manual.ps.Z", b"\x1f\x9d\x90" + b"compressed postscript" * 30), ("page.html.gz", trees.gz(b"<html><title>P</title></html>"))):
+        t.file("packed/" + nm, data)
+        m.add(("/packed/" + nm).encode(), "doc", data, mime="application/octet-stream", tags=["file", "packed"])
+    m.add(b"/packed", "menu", tags=["dir"])
     # a directory with UMN metadata
     t.dir("umn")
     m.add(b"/umn", "menu", tags=["dir", "umn"])
